@@ -57,8 +57,10 @@ def shards(tier):
         n2 = len(list(tm.all_states(*UNI_RESULTS_ONLY[tier])))
         for i in range(0, n2, 20):
             sh.append(('D', 'results', i, min(n2, i + 20)))
-    sh += [s for s in e1.std_shards(tier, with_f=False)]
+    sh += [s for s in e1.std_shards(tier, with_f=False, with_big=True)]
     sh.append(('EQ',))
+    sh.append(('BIGDEF',))
+    sh.append(('SPECIAL',))
     return sh
 
 
@@ -340,7 +342,142 @@ def run_eq(tier):
     return {'counters': dict(ctr), 'violations': V[:5], 'samples': [], 'outcomes': []}
 
 
+def run_bigdef(tier):
+    """Derived definitions of big operands (12 x 9 names): thresholds on the number of
+    names dropped / merged; results and the follow-up behaviour of the result."""
+    from .. import bigdefs
+    universe = bigdefs.UNIVERSE
+    names = sorted(set(universe[0]) | set(universe[1]))
+    env.HashLabel.ranks = {n: len(names) - i for i, n in enumerate(names)}
+    ctr = collections.Counter()
+    V = []
+    for sname, s in bigdefs.base_states():
+        ctr['tables'] += 1
+        for oname, t in bigdefs.operands():
+            forms = [('union-ignore', lambda a, b: a.union(b, ignore_conflicts=True), tm.union, True),
+                     ('intersection-ignore', lambda a, b: a.intersection(b, ignore_conflicts=True),
+                      tm.intersection, True),
+                     ('or', lambda a, b: a | b, tm.union, False),
+                     ('and', lambda a, b: a & b, tm.intersection, False)]
+            for name, fn, mfn, ign in forms:
+                a, b = explore.make_real(s), explore.make_real(t)
+                info = {'operation': name, 'left': sname, 'right': oname, 'universe': 'big'}
+                ctr['calls'] += 1
+                try:
+                    exp = mfn(s, t, ign)
+                except tm.Reject:
+                    try:
+                        fn(a, b)
+                        V.append(common.violation(ID, 'conflict-raises', info, 'an exception', 'returned'))
+                    except Exception:
+                        pass
+                    continue
+                try:
+                    res = fn(a, b)
+                except Exception as e:
+                    V.append(common.violation(ID, f'{name}-result', info, tm.triple(exp),
+                                              f'{type(e).__name__}: {e}'))
+                    continue
+                if explore.visible(res) != tm.triple(exp):
+                    V.append(common.violation(ID, f'{name}-result', info, tm.triple(exp),
+                                              explore.visible(res)))
+                    continue
+                # the result is a definition like any other: follow-up operations on it
+                import pickle
+                blob = pickle.dumps(res)
+                for op in bigdefs.followups(exp):
+                    r2 = pickle.loads(blob)
+                    vs, _ = explore.step(r2, exp, op, universe, ctr)
+                    if vs:
+                        V.append(common.violation(ID, 'edit-after-derivation',
+                                                  dict(info, edit=explore.enc_op(op)),
+                                                  vs[0]['expected'], vs[0]['observed']))
+                        break
+        # take with long selections
+        for osel in (None, tuple(reversed(s[0]))[:4], s[0][::3], s[0][1:] + s[0][:1]):
+            for psel in (None, tuple(reversed(s[1]))[:2], s[1][::2]):
+                for reorder in (False, True):
+                    if (osel is not None and not osel and not s[0]) or osel == () or psel == ():
+                        pass
+                    real = explore.make_real(s)
+                    kw = {}
+                    if osel is not None:
+                        kw['objects'] = [L(x) for x in osel]
+                    if psel is not None:
+                        kw['properties'] = [L(x) for x in psel]
+                    exp = tm.take(s, osel, psel, reorder)
+                    ctr['calls'] += 1
+                    try:
+                        got = explore.visible(real.take(reorder=reorder, **kw))
+                    except Exception as e:
+                        got = f'{type(e).__name__}: {e}'
+                    if got != tm.triple(exp):
+                        V.append(common.violation(ID, 'take-result',
+                                                  {'operand': sname, 'objects': osel, 'properties': psel,
+                                                   'reorder': reorder, 'universe': 'big'},
+                                                  tm.triple(exp), got))
+        if len(V) >= 4:
+            break
+    ctr['evaluations'] = ctr['calls']
+    return {'counters': dict(ctr), 'violations': V[:4], 'samples': [], 'outcomes': []}
+
+
+SPECIAL_UNI = (('a*', 'ab', 'x[1]', 'x1'), ('why?', 'whom', '[p]'))
+
+
+def run_special(tier):
+    """Names containing characters that mean something to pattern matchers / formatters:
+    labels are opaque.  Unary derivations and take on every definition over 2 + 2 of them."""
+    ctr = collections.Counter()
+    V = []
+    names = sorted(set(SPECIAL_UNI[0]) | set(SPECIAL_UNI[1]))
+    env.HashLabel.ranks = {n: i for i, n in enumerate(names)}
+    import itertools
+    for onames in itertools.combinations(SPECIAL_UNI[0], 2):
+        for pnames in itertools.combinations(SPECIAL_UNI[1], 2):
+            for s in tm.all_states(onames, pnames):
+                ctr['tables'] += 1
+                osel = [None] + list(tm.ordered_subsets(s[0]))
+                psel = [None] + list(tm.ordered_subsets(s[1]))
+                for o, p, reorder in itertools.product(osel, psel, (False, True)):
+                    real = explore.make_real(s)
+                    kw = {}
+                    if o is not None:
+                        kw['objects'] = [L(x) for x in o]
+                    if p is not None:
+                        kw['properties'] = [L(x) for x in p]
+                    exp = tm.take(s, o, p, reorder)
+                    ctr['calls'] += 1
+                    try:
+                        got = explore.visible(real.take(reorder=reorder, **kw))
+                    except Exception as e:
+                        got = f'{type(e).__name__}: {e}'
+                    if got != tm.triple(exp):
+                        V.append(common.violation(ID, 'take-result',
+                                                  {'operand': _tj(s), 'objects': o, 'properties': p,
+                                                   'reorder': reorder, 'universe': 'special'},
+                                                  tm.triple(exp), got))
+                        break
+                real = explore.make_real(s)
+                for name, fn, exp in (('copy', lambda d: d.copy(), s),
+                                      ('transposed', lambda d: d.transposed(), tm.transposed(s)),
+                                      ('inverted', lambda d: d.inverted(), tm.inverted(s))):
+                    ctr['calls'] += 1
+                    if explore.visible(fn(real)) != tm.triple(exp):
+                        V.append(common.violation(ID, f'{name}-result',
+                                                  {'operand': _tj(s), 'universe': 'special'},
+                                                  tm.triple(exp), explore.visible(fn(real))))
+                if len(V) >= 4:
+                    break
+    ctr['evaluations'] = ctr['calls']
+    return {'counters': dict(ctr), 'violations': V[:4], 'samples': [], 'outcomes': []}
+
+
 def run_shard(shard, tier):
+    if shard[0] == 'BIGDEF':
+        return run_bigdef(tier)
+    if shard[0] == 'SPECIAL':
+        return run_special(tier)
     if shard[0] == 'D':
         try:
             return run_derived(shard, tier)
@@ -362,6 +499,10 @@ def replay(v):
     c = v['case']
     if 'tag' in c:
         return e1.replay_e1(__import__(__name__, fromlist=['x']), v)
+    if c.get('universe') == 'big':
+        return run_bigdef('quick')['violations']
+    if c.get('universe') == 'special':
+        return run_special('quick')['violations']
     # derived-definition cases: re-run the shard that contains the operand
     tier = 'quick'
     universe = UNI[tier]
